@@ -37,12 +37,33 @@ def kind? (s : String) : Option Nat :=
   | "ok" => some 0 | "wr" => some 1 | "ws" => some 2 | "wk" => some 3 | "wn" => some 4
   | "bad" => some 5 | _ => none
 
+/-- signature kind of a `just`/`wrap` entry → (signature token, valid for exactly this hash, number,
+    round, set).  `cn<X>`: the signer's honest signature over (this hash, number X): the genuine signature
+    when X is the entry's number, otherwise other bytes that do not verify for this entry. -/
+def sigOf (w num : Nat) (g : String) : Option (Nat × Bool) :=
+  if g.startsWith "cn" then do
+    let x ← (g.drop 2).toString.toNat?
+    if x % 2 ^ w == num then pure (0, true) else pure (100 + x % 2 ^ w, false)
+  else do
+    let k ← kind? g
+    pure (k, k == 0)
+
 def pre? (isJust : Bool) (w : Nat) (s : String) : Option Pre :=
   match words s with
   | [b, n, i, g] => do
-    let sg ← if isJust then kind? g else g.toNat?
-    pure ⟨← b.toNat?, (← n.toNat?) % 2 ^ w, ← i.toNat?, sg, !isJust || sg == 0⟩
+    let num := (← n.toNat?) % 2 ^ w
+    let (sg, ok) ← if isJust then sigOf w num g else (do pure ((← g.toNat?), true))
+    pure ⟨← b.toNat?, num, ← i.toNat?, sg, ok⟩
   | _ => none
+
+/-- lines with `fz=1` contain an entry whose number disagrees with the tree (a forged copy); both sides
+    print only the verdict there: which rejection is reported first depends on how the vote graph treats
+    the bogus number, which the model does not follow. -/
+def coarse (fz : Bool) (x : String) : String :=
+  if !fz then x
+  else if x == "ok" || x.startsWith "ok " || x == "novoters" || x == "err-auth" || x == "err-setid"
+      || x == "err-auths" || x == "err-voters" then x
+  else "rej"
 
 def pres? (isJust : Bool) (w : Nat) (body : String) : Option (List Pre) :=
   if body.trimAscii.toString == "" then some []
@@ -92,12 +113,15 @@ def stepJust (kv : List (String × String)) (body : String) : Option String := d
   | none => pure "novoters/err-auth"
   | some vs =>
     let c : Chain := ⟨par, has⟩
+    let fz := field kv "fz" == some "1"
+    -- an invalid signature is a rejection whatever the numbers are (C19_sound)
+    if fz && pcs.any (fun p => !p.sigok) then pure "rej/rej" else
     if !consistent w vs c pcs then pure "unmodelled" else
     let tn := tn % 2 ^ w
     let fn := fn % 2 ^ w
     let out := fun (pick : List Nat → Nat) =>
-      showJ (verifyFinalizes pick w vs c tb tn fb fn pcs) ++ "/" ++
-      showJ (verifyWithVoterSet pick w vs c tb tn pcs)
+      coarse fz (showJ (verifyFinalizes pick w vs c tb tn fb fn pcs)) ++ "/" ++
+      coarse fz (showJ (verifyWithVoterSet pick w vs c tb tn pcs))
     pure (bracket (out (pickToward c tb)) (out (pickAway c tb)))
 
 def authSet? (s : String) : Option (Option (List (Nat × Nat))) :=
@@ -124,17 +148,24 @@ def stepWrap (kv : List (String × String)) (body : String) : Option String := d
   let g : GState := ⟨change, cur, auths⟩
   let c : Chain := ⟨par, has⟩
   let tn := tn % 2 ^ 32
-  let unmodelled := match setIdAt g ibn with
+  let fz := field kv "fz" == some "1"
+  -- does the call reach the verification, and with which set id
+  let reached := match setIdAt g ibn with
     | some sid => match g.authsAt sid with
-      | some a => match newVoterSet (unitWs a) with
-        | some vs => !consistent 32 vs c pcs
-        | none => false
-      | none => false
+      | some a => (newVoterSet (unitWs a)).map (fun vs => (sid, vs))
+      | none => none
+    | none => none
+  let badSig := match reached with
+    | some (sid, _) => (resign sset sid pcs).any (fun p => !p.sigok)
+    | none => false
+  if fz && badSig then pure "rej" else
+  let unmodelled := match reached with
+    | some (_, vs) => !consistent 32 vs c pcs
     | none => false
   if unmodelled then pure "unmodelled" else
-  let a := showW round (wrapper (pickToward c tb) false g ib ibn sset c tb tn pcs)
-  let b := showW round (wrapper (pickAway c tb) false g ib ibn sset c tb tn pcs)
-  let sp := showW round (wrapper (pickAway c tb) true g ib ibn sset c tb tn pcs)
+  let a := coarse fz (showW round (wrapper (pickToward c tb) false g ib ibn sset c tb tn pcs))
+  let b := coarse fz (showW round (wrapper (pickAway c tb) false g ib ibn sset c tb tn pcs))
+  let sp := coarse fz (showW round (wrapper (pickAway c tb) true g ib ibn sset c tb tn pcs))
   if a != b then pure (a ++ "\tspec=" ++ b ++ "\tkf=ghost-ambiguous")
   else if sp != a then pure (a ++ "\tspec=" ++ sp ++ "\tkf=wrapper-unit-weights")
   else pure a
@@ -164,6 +195,8 @@ def step (line : String) : String :=
   -- numbers that disagree with the tree: outside the model; the only claim is that the call returns
   | "vcl" :: rest => if (stepVC (kvs rest) body).isSome then "returns" else "bad-op"
   | "just" :: rest => (stepJust (kvs rest) body).getD "bad-op"
+  -- a validly signed precommit with a bogus number that reaches the vote graph: only "the call returns"
+  | "justl" :: rest => if (stepJust (kvs rest) body).isSome then "returns" else "bad-op"
   | "wrap" :: rest => (stepWrap (kvs rest) body).getD "bad-op"
   | "imp" :: rest => (stepImp (kvs rest)).getD "bad-op"
   | _ => "bad-op"
